@@ -268,6 +268,16 @@ def _mk_mr(shape, k, letters, mode, m, budget=240):
                      bounds=f"kdtree {mode} mode with max_returns={m}, lengths {shape}, letters {letters}, max_edits={k}")
 
 
+def _probe_pool(n_cpu, compression, **kw):
+    def run():
+        import pyrepseq
+        seqs, planted = hc.scale_case(6000, plant=(0, 255, 256, 4999, -1))
+        got = pyrepseq.kdtree(list(seqs), max_edits=1, n_cpu=n_cpu, compression=compression, **kw)
+        ok, detail = hc.compare_triplets(got, hc.scale_self_expected(planted))
+        return ok, f"[scale probe] kdtree(n_cpu={n_cpu}, compression={compression}, {kw}) with the REAL multiprocessing.Pool on {len(seqs)} sequences: {detail}"
+    return run
+
+
 def conditions(tier):
     out = []
     for shape in [(1,), (1, 1), (2, 1), (1, 1, 1), (2, 1, 1)]:
@@ -305,4 +315,8 @@ def conditions(tier):
         for mode in ("default", "hamming", "custom"):
             out.append(_mk_mr((2, 2, 2), 2, "AY", mode, 2, budget=2400))
             out.append(_mk_mr((2, 2, 1, 1), 2, "AY", mode, 1, budget=2400))
+    for n_cpu, comp in [(3, 1), (4, 5), (16, 20)]:
+        out.append(hc.probe_condition(f"C11/probe/kdtree/n_cpu={n_cpu}/compression={comp}/6000-sequences",
+                                      f"kdtree with the real multiprocessing.Pool, n_cpu={n_cpu}, compression={comp}, 6 005 sequences with five planted pairs: exact triplet set",
+                                      _probe_pool(n_cpu, comp)))
     return out
